@@ -13,7 +13,29 @@ from families.writercommon import *
 PROPERTY = "C03"
 FAMILY = "load"
 LEAN_MODULE = "ElfioVerif.Props.C03"
-THEOREMS = ["ElfioVerif.C03.encodeShdr_spec_bytes", "ElfioVerif.C03.encodePhdr_spec_bytes", "ElfioVerif.C03.encodeShdr_eq_spec", "ElfioVerif.C03.encodePhdr_eq_spec", "ElfioVerif.C03.decodeShdr_encodeShdr", "ElfioVerif.C03.decodePhdr_encodePhdr", "ElfioVerif.C03.hdr_set_get_spec", "ElfioVerif.C03.hdr_set_frame_spec", "ElfioVerif.C03.hdr_set_get", "ElfioVerif.C03.hdr_set_frame", "ElfioVerif.C03.hdr_set_ident_get"]
+THEOREMS = ["ElfioVerif.C03.encodeShdr_spec_bytes",
+            "ElfioVerif.C03.encodePhdr_spec_bytes",
+            "ElfioVerif.C03.encodeShdr_eq_spec",
+            "ElfioVerif.C03.encodePhdr_eq_spec",
+            "ElfioVerif.C03.decodeShdr_encodeShdr",
+            "ElfioVerif.C03.decodePhdr_encodePhdr",
+            "ElfioVerif.C03.hdr_set_get_spec",
+            "ElfioVerif.C03.hdr_set_frame_spec",
+            "ElfioVerif.C03.hdr_set_get",
+            "ElfioVerif.C03.hdr_set_frame",
+            "ElfioVerif.C03.hdr_set_ident_get",
+            "ElfioVerif.C03.create_eq",
+            "ElfioVerif.C03.create_header",
+            "ElfioVerif.C03.create_inv",
+            "ElfioVerif.C03.sectionsAdd_name",
+            "ElfioVerif.C03.saveSection_writes",
+            "ElfioVerif.C03.save_decodes",
+            "ElfioVerif.C03.save_decodes_header",
+            "ElfioVerif.C03.save_decodes_section",
+            "ElfioVerif.C03.save_decodes_segment",
+            "ElfioVerif.C03.save_header_fields",
+            "ElfioVerif.C03.save_decode_fields",
+            "ElfioVerif.C03.save_decode_header"]
 SITES = ["conv", "save_", "lsws", "lst_", "lseg", "wsd", "sec32_set", "sec64_set", "sec32_insert", "sec64_insert"]
 RULE = ("API construction programs from a random-model generator (0-8 sections of mixed types/flags/alignments/"
         "sizes incl. empty and no-bits, 0-4 segments incl. nested ones and a section-less PT_PHDR, explicit or "
